@@ -174,10 +174,17 @@ func (w *worker) runPath(t []int) *exec {
 		}()
 		topFrame = &frame{i: i, th: main}
 		if init := w.prog.main.Func("init"); init != nil {
+			ex.inInit = true
 			call(i, topFrame, 0, init, nil)
+			ex.inInit = false
 		}
 		call(i, topFrame, 0, w.prog.entry, nil)
 	}()
+	if ex.abort != nil && ex.inInit && (ex.abort.status == "panic" || ex.abort.status == "deadlock") {
+		// package initialisers run in a partial environment (most library initialisers are skipped):
+		// a failure there is an engine limitation, never a property violation
+		ex.abort = &pathEnd{"unsupported", "package initialiser could not be executed: " + ex.abort.msg}
+	}
 	main.done = true
 	if len(ex.threads) > 1 {
 		if ex.abort == nil {
